@@ -73,7 +73,7 @@ def run(tier, seed):
     T = {g.name: g for g in families.t_sets()}
     R = report.Run('C04', tier, seed); cases = []
     if tier == 'quick':
-        plan = [(('kwid', 'abcd'), [3], 0, 0), (('eqeq',), [2], 0, 0), (('kwx',), [2], 1, 1), (('idkw', 'num'), [2], 1, 0)]
+        plan = [(('kwid', 'abcd', 'idext'), [3], 0, 0), (('eqeq',), [2], 0, 0), (('kwx',), [2], 1, 1), (('idkw', 'num'), [2], 1, 0)]
     else:
         plan = [(tuple(T), [1, 2, 3], 0, 0), (tuple(T), [2, 3], 1, 1), (tuple(T), [2], 1, 0), (('kwid', 'abcd'), [4], 0, 0)]
     for names, Ls, ws, nl in plan:
@@ -84,7 +84,10 @@ def run(tier, seed):
                               ws=ws, nl=nl, validate_cf=False, wit_every=2, finish=False, R=R, defer=cases, tag='b')
     # table level: the generated lexer automaton of EVERY term set of the family against the reference lexer automaton (inputs of any length)
     wd = vlib.workdir('C04', fresh=False)
-    units, tq = lexer_table_queries(wd, list(T.values()))
+    # a term set with a recorded finding (known_findings.json) has no homomorphism at all: the exact-length queries check it outside the recorded inputs instead
+    kn = {k.get('unit') for k in R.known}
+    units, tq = lexer_table_queries(wd, [g for g in T.values() if g.name not in kn])
+    R.extra['lexer_table_units_skipped_for_recorded_findings'] = sorted(kn & set(T))
     vlib.build_units(units)
     for u in units: R.add_unit(u, desc='lexer table of term set ' + u.name)
     for r in vlib.run_queries([q for q in tq if q.unit.ok]):
